@@ -47,7 +47,7 @@ def build(tier, seed):
         'bounds': {'alphabet': [-1, 0, 2], 'max_len': L, 'dt': DTS, 'period_lists_in_dt': PLISTS, 'xi': XIS, 'min_dt_ratio': MDR},
         'required_classes': ['T<6dt', 'T>=6dt', 'T=0', 'container-list', 'container-tuple', 'container-int', 'object-after-edit', 'refined-f>1', 'unrefined-f=1',
                              'xi=0-true-equals-pseudo', 'energy>0', 'object-descending-periods', 'object-min_dt_ratio-sequence',
-                             'object-xi-sequence'],
+                             'object-xi-sequence', 'same-size-sequence'],
         'assumptions': ['reference peaks from the 40-digit exact response (mcheck/refs/sdof_ref.py) with the tolerance of C01',
                         'object path (e): which integer refinement factor float rounding of dt/target lands on (f or f+1) and whether the '
                         'library interpolation holds the last value for f-1 extra sub-steps is not fixed by the statement: all are accepted'],
@@ -445,6 +445,63 @@ def run_case(case):
                     if not same:
                         r.fail('d.containers', sub, '%s spectra for integer-typed periods %r differ from the same periods as floats' % (nm, list(ints)),
                                observed=g, expected=ref0)
+    # ---- consecutive calls of the SAME SIZE (same record length, same number of periods): first a list without a leading 0, then one
+    #      with it (and back).  Whatever is kept between calls of one size, the T = 0 entry is S_d = 0, S_v = 0, S_a = PGA and the other
+    #      entries are those of the periods themselves (compared with one-period calls).
+    for xi in (0.05, 0.0):
+        for nz, z in ((('3', '8', '25'), ('0', '8', '25')), (('20', '2', '100', '5.9'), ('0', '2', '100', '5.9'))):
+            p_nz = np.array([float(fr(p) * fr(dts)) for p in nz])
+            p_z = np.array([float(fr(p) * fr(dts)) for p in z])
+            for fname, fn in (('pseudo', sdof.pseudo_response_spectra), ('true', sdof.true_response_spectra)):
+                sub = {'rec': rec, 'dt': dts, 'xi': xi, 'fn': fname, 'sequence': [list(nz), list(z), list(nz)]}
+                singles = {}
+                okall = True
+                for T in sorted(set(p_nz.tolist() + p_z.tolist())):
+                    ok, out = r.call('same-size-sequence', dict(sub, single=T / dt), fn, a, dt, np.array([T]), xi)
+                    if not ok:
+                        okall = False
+                        break
+                    singles[T] = [float(np.asarray(x, dtype=float)[0]) for x in out]
+                if not okall:
+                    continue
+                for step, pl in (('without-zero', p_nz), ('with-leading-zero', p_z), ('without-zero-again', p_nz)):
+                    ok, out = r.call('same-size-sequence', dict(sub, step=step), fn, a, dt, pl.copy(), xi)
+                    if not ok:
+                        continue
+                    r.cls('same-size-sequence')
+                    r.n_cmp += 1
+                    try:
+                        got = [np.asarray(x, dtype=float) for x in out]
+                        want = [np.array([singles[T][k] for T in pl.tolist()]) for k in range(3)]
+                        scale = [max(float(np.max(np.abs(wk))), 1e-300) for wk in want]
+                        bad = [k for k in range(3) if got[k].shape != want[k].shape or
+                               not np.all(np.abs(got[k] - want[k]) <= 1e-9 * scale[k])]
+                        if bad:
+                            r.fail('same-size-sequence', dict(sub, step=step), '%s spectra of a list differ from the one-period calls after a '
+                                   'call of the same size with another list (output %d)' % (fname, bad[0]), observed=got[bad[0]], expected=want[bad[0]])
+                        if step == 'with-leading-zero':
+                            r.expect('same-size-sequence.T=0', dict(sub, step=step),
+                                     got[0][0] == 0 and got[1][0] == 0 and abs(got[2][0] - pga) <= 1e-12 * pga,
+                                     'T = 0 entry is not S_d = 0, S_v = 0, S_a = PGA', observed=[g[0] for g in got], expected=[0.0, 0.0, pga])
+                    except Exception as e:
+                        r.fail('same-size-sequence', dict(sub, step=step), 'malformed: %s' % e, observed=out)
+        # object path: two objects holding records of the same length, the first without, the second with a leading zero period
+        sub = {'rec': rec, 'dt': dts, 'xi': xi, 'fn': 'object', 'sequence': 'AccSignal(periods without 0).s_d, then AccSignal(same length, leading 0).s_d'}
+
+        def two_objects():
+            s1 = eqsig.AccSignal(a, dt, response_times=np.array([float(fr(p) * fr(dts)) for p in ('3', '8', '25')]))
+            s1.gen_response_spectrum(xi=xi)
+            s2 = eqsig.AccSignal(a[::-1].copy() * 0.5, dt, response_times=np.array([float(fr(p) * fr(dts)) for p in ('0', '8', '25')]))
+            s2.gen_response_spectrum(xi=xi)
+            return np.array(s2.s_d), np.array(s2.s_v), np.array(s2.s_a)
+        ok, out = r.call('same-size-sequence', sub, two_objects)
+        if ok:
+            r.n_cmp += 1
+            try:
+                r.expect('same-size-sequence.T=0', sub, out[0][0] == 0 and out[1][0] == 0 and abs(out[2][0] - 0.5 * pga) <= 1e-12 * pga,
+                         'T = 0 entry of the second object is not S_d = 0, S_v = 0, S_a = PGA', observed=[o[0] for o in out], expected=[0.0, 0.0, 0.5 * pga])
+            except Exception as e:
+                r.fail('same-size-sequence', sub, 'malformed: %s' % e, observed=out)
     return r
 
 
